@@ -25,7 +25,8 @@ def fresh_hash(cname, path):
     return h1, h2
 
 
-FILE_OPS = [("w", 0), ("w", 1), ("a", 0), ("a", 1), ("cp", 0, 1), ("cp", 1, 0), ("rm", 0), ("rm", 1), ("touch", 0), ("extw", 0), ("extrm", 0), ("exttouch", 0)]
+FILE_OPS = [("w", 0), ("w", 1), ("a", 0), ("a", 1), ("cp", 0, 1), ("cp", 1, 0), ("rm", 0), ("rm", 1), ("touch", 0), ("extw", 0), ("extrm", 0), ("exttouch", 0),
+            ("parent-becomes-file",)]  # the directory holding path 1 is removed and a regular file takes its name
 
 
 def run_file_history(arg):
@@ -46,7 +47,8 @@ def run_file_history(arg):
         hist = (first,) + rest
         shutil.rmtree(root, ignore_errors=True)
         os.makedirs(root)
-        paths = [os.path.join(root, "f0.txt"), os.path.join(root, "f1.txt")]
+        paths = [os.path.join(root, "f0.txt"), os.path.join(root, "d", "f1.txt")]
+        os.makedirs(os.path.join(root, "d"))
         objs = [C(p) for p in paths]
         try:
             for o in objs:
@@ -65,7 +67,16 @@ def run_file_history(arg):
             try:
                 k = op[0]
                 mediated = None
-                if k == "w":
+                blocked = os.path.isfile(os.path.join(root, "d"))  # path 1 cannot exist or be created any more
+                if blocked and ((k in ("w", "a") and op[1] == 1) or (k == "cp" and 1 in op[1:])):
+                    continue
+                if k == "parent-becomes-file":
+                    if blocked:
+                        continue
+                    shutil.rmtree(os.path.join(root, "d"))
+                    with open(os.path.join(root, "d"), "w") as f:
+                        f.write("not a directory")
+                elif k == "w":
                     size += 1
                     objs[op[1]].write("x" * size)
                     mediated = op[1]
@@ -271,7 +282,7 @@ def run(ctx):
     return {"coverage": {
         "states": hist, "transitions": ops, "traces_validated_against_impl": hist, "history_length": L,
         "distinct_validity_outcomes": len(outcomes), "exhaustive": True,
-        "rule": f"for each of 3 file classes all histories of {L} operations over 2 paths (write, append, copy_to, remove, touch through redun; "
+        "rule": f"for each of 3 file classes all histories of {L} operations over 2 paths (write, append, copy_to, remove, touch through redun; the directory of one path replaced by a regular file; "
         "external write / remove / touch) and for each of 6 directory / file-set classes all histories over a directory tree (member write, remove, "
         "touch, sub-directory member, Dir.copy_to, rmdir, mkdir) on a real filesystem; after every operation: hashing never raises and is "
         "deterministic, an object written/copied through redun has the fresh hash, is_valid() <=> recorded hash == current hash (always true for "
